@@ -6,6 +6,8 @@
  *   sandbox_dir 0x1f uid(0 = keep) 0x1f timeout_s 0x1f argv0 0x1f argv1 ...
  * for each case the runner prints "done <status>" on stdout where status is exit:N, signal:N or timeout. */
 #define _GNU_SOURCE
+#include <sys/resource.h>
+#include <signal.h>
 #include <stdio.h>
 #include <stdlib.h>
 #include <string.h>
@@ -250,6 +252,15 @@ static void child(char *dir, int uid, int argc, char **argv)
 	fd = __real_open("../stderr", O_WRONLY | O_CREAT | O_TRUNC, 0666); if (fd < 0) _exit(123); dup2(fd, 2); close(fd);
 	fd = __real_open("../oplog", O_WRONLY | O_CREAT | O_TRUNC | O_APPEND, 0666); if (fd < 0) _exit(124); dup2(fd, LOGFD); close(fd);
 	umask(022);
+	{
+		/* environment answers chosen by the case: "../umask" (octal), "../nofile" (descriptor limit), "../fsize" (file size limit in
+		 * bytes; writes beyond it fail with EFBIG, the signal is ignored) */
+		FILE *mf;
+		unsigned v;
+		if ((mf = fopen("../umask", "r")) != NULL) { if (fscanf(mf, "%o", &v) == 1) umask((mode_t) v); fclose(mf); }
+		if ((mf = fopen("../nofile", "r")) != NULL) { if (fscanf(mf, "%u", &v) == 1) { struct rlimit rl; rl.rlim_cur = rl.rlim_max = v; setrlimit(RLIMIT_NOFILE, &rl); } fclose(mf); }
+		if ((mf = fopen("../fsize", "r")) != NULL) { if (fscanf(mf, "%u", &v) == 1) { struct rlimit rl; rl.rlim_cur = rl.rlim_max = v; signal(SIGXFSZ, SIG_IGN); setrlimit(RLIMIT_FSIZE, &rl); } fclose(mf); }
+	}
 	if (uid) { if (setgroups(0, NULL) || setgid((gid_t) uid) || setuid((uid_t) uid)) _exit(125); }
 	LOGGING = 1;
 	rc = lhasa_cli_main(argc, argv);
